@@ -15,8 +15,8 @@ def oracle_cycles(c, stim_bits, k):
     for _ in range(k):
         _, cap = on.evaluate(c, st, on.Alg2)
         for p in range(n_io, len(st)):
-            if cap[p] is not None:
-                st[p] = cap[p]
+            # a state element without data line: its unconnected data pin reads constant 0 (the property's reading of unconnected pins)
+            st[p] = cap[p] if cap[p] is not None else 0
     return st, cap
 
 
